@@ -28,7 +28,15 @@ Thorough == TIER = "thorough"
 (***************************************************************************)
 Txt(n) == [i \in 1..n |-> 97 + (i % 26)]                  \* printable text of length n
 Bin(n) == [i \in 1..n |-> (i * 37) % 256]
-Utf8Key == <<102, 195, 164, 114, 103, 195, 182>>          \* "färgö": well-formed two-byte UTF-8 sequences                 \* arbitrary bytes of length n
+Utf8Key == <<102, 195, 164, 114, 103, 195, 182>>          \* "färgö": well-formed two-byte UTF-8 sequences
+Utf8Topic == <<97, 47, 239, 191, 189, 47, 240, 159, 152, 128>>   \* "a/" U+FFFD "/" U+1F600: three- and four-byte sequences
+PropLikePayload == <<38, 0, 1, 98, 0, 1, 98>>              \* a payload that reads like one more user property
+(* strings MQTT gives a meaning to: shared subscriptions, system topics, wildcards, separators *)
+SpecialTexts == { <<36, 115, 104, 97, 114, 101, 47, 103, 47, 116>>,      \* $share/g/t
+                  <<36, 115, 104, 97, 114, 101, 47, 103>>,               \* $share/g
+                  <<36, 115, 104, 97, 114, 101, 47>>,                    \* $share/
+                  <<36, 83, 89, 83, 47, 120>>,                           \* $SYS/x
+                  <<35>>, <<43>>, <<97, 47, 35>>, <<43, 47, 43>>, <<47>>, <<47, 47>>, <<97, 47, 47, 98>>, <<36>>, Utf8Topic }                 \* arbitrary bytes of length n
 
 SampleVals(id) ==
   LET kd == PropKind(id) IN
@@ -113,10 +121,12 @@ Publishes ==
   { [t |-> 3, fl |-> x.fl,
      v |-> [TopicName |-> x.topic, Props |-> x.ps, Payload |-> x.pl]
            @@ (IF QoSOf(x.fl) \in {1, 2} THEN [PacketID |-> x.pid] ELSE EmptyFn)] :
-    x \in {y \in [fl : {0, 1, 2, 3, 4, 5, 10, 11, 12, 13}, topic : {Txt(3), <<>>}, ps : PropSeqs(3),
-                  pl : {<<>>, Bin(5)}, pid : {1, 65535}] :
+    x \in {y \in [fl : {0, 1, 2, 3, 4, 5, 10, 11, 12, 13}, topic : {Txt(3), <<>>, Utf8Topic}, ps : PropSeqs(3),
+                  pl : {<<>>, Bin(5), PropLikePayload, <<11, 5>>}, pid : {1, 65535}] :
              /\ (y.topic = <<>> => HasProp(y.ps, 35))
-             /\ (~Thorough => (y.fl \in {0, 3, 13} \/ Len(y.ps) <= 1) /\ (y.pid = 1 \/ y.fl = 2))} }
+             /\ (~Thorough => (y.fl \in {0, 3, 13} \/ Len(y.ps) <= 1) /\ (y.pid = 1 \/ y.fl = 2))
+             /\ (~Thorough /\ y.topic = Utf8Topic => y.fl = 0 /\ Len(y.ps) <= 1)
+             /\ (~Thorough /\ y.pl \in {PropLikePayload, <<11, 5>>} => y.fl \in {0, 3})} }
 
 Acks(t) ==
   { [t |-> t, fl |-> IF t = 6 THEN 2 ELSE 0, v |-> [PacketID |-> pid]] : pid \in {1, 65535} }
@@ -129,6 +139,9 @@ Subscribes ==
     pid \in {1, 65535}, ps \in PropSeqs(8),
     fs \in { << <<Txt(3), 0>> >>, << <<Txt(3), 1>>, <<Txt(1), 2>> >>,
              << <<Txt(2), 45>>, <<Txt(3), 0>>, <<Txt(2), 45>> >> } }      \* 45 = QoS1, NL, RAP, retain handling 2
+  \cup { [t |-> 8, fl |-> 2, v |-> [PacketID |-> 1, Props |-> <<>>, Filters |-> fs]] :       \* filter texts MQTT gives a meaning to
+         fs \in {<< <<sx, o>>, <<Txt(2), 1>> >> : sx \in SpecialTexts, o \in {0, 4, 5}}
+                \cup {<< <<Txt(2), 1>>, <<sx, o>> >> : sx \in SpecialTexts, o \in {4}} }
 
 SubAcks(t) ==
   { [t |-> t, fl |-> 0, v |-> [PacketID |-> pid, Props |-> ps, ReasonCodes |-> rc]] :
@@ -136,7 +149,9 @@ SubAcks(t) ==
 
 Unsubscribes ==
   { [t |-> 10, fl |-> 2, v |-> [PacketID |-> pid, Props |-> ps, Filters |-> fs]] :
-    pid \in {1, 65535}, ps \in PropSeqs(10), fs \in { <<Txt(3)>>, <<Txt(1), Txt(4), Txt(1)>> } }
+    pid \in {1, 65535}, ps \in PropSeqs(10),
+    fs \in { <<Txt(3)>>, <<Txt(1), Txt(4), Txt(1)>> } }
+  \cup { [t |-> 10, fl |-> 2, v |-> [PacketID |-> 1, Props |-> <<>>, Filters |-> <<sx, Txt(2)>>]] : sx \in SpecialTexts }
 
 Pings(t) == { [t |-> t, fl |-> 0, v |-> EmptyFn] }
 
